@@ -268,9 +268,22 @@ def c03_6(ctx, ss):
             if len(ds) == 1 and ds[0].kind in ("comp", "for") and isinstance(ds[0].value, ast.Name):
                 src_name = ds[0].value.id
     apps = [(st, args) for st, m, args in builder_sites(ff, flow, src_name) if m == "append"] if src_name else []
+    # every collected source tree is copied (no slice / filter between collection and copy)
+    dc = [c for c in pf.calls_in(ff.node) if txt(c.func) in ("copy.deepcopy", "deepcopy") and c.args and isinstance(c.args[0], ast.Name)]
+    whole = False
+    for c in dc:
+        ds = flow.defs_of(c.args[0])
+        if len(ds) == 1 and ds[0].kind in ("comp", "for") and isinstance(ds[0].value, ast.Name):
+            comp = ds[0].stmt
+            whole = not (isinstance(comp, (ast.ListComp, ast.GeneratorExp)) and any(g.ifs for g in comp.generators))
+    if not whole:
+        ctx.violation("C03.6", ckey(ff, None, "copy-all"), where(ff, dc[0] if dc else ff.node),
+                      "the deep copies are not made from the whole list of collected source tables (sliced / filtered): some CDecay statements get no table")
+    else:
+        ctx.holds("C03.6", ckey(ff, None, "copy-all"), where(ff, dc[0]), "every collected source table is deep-copied", 1)
     if not apps:
-        # find the list the deep copies are made from
-        raise AnchorMissing("_add_charge_conjugate_decays: list of source trees not found")
+        ctx.violation("C03.6", ckey(ff, None, "source"), where(ff, ff.node), "no source table is ever collected for the CDecay statements")
+        return
     for st, args in apps:
         parts = enclosing_try_parts(ff, st)
         v = flow.expand(args[0])
